@@ -81,7 +81,7 @@ def str_method(eng, base, attr, node):
                 pass
         if attr == 'split' and not args and not kwargs:
             return segstr.split_whitespace(eng_, base)
-        if attr == 'replace' and len(args) == 2 and isinstance(args[0], str) and isinstance(args[1], str) and len(args[0]) == 1:
+        if attr == 'replace' and len(args) == 2 and isinstance(args[0], str) and isinstance(args[1], str) and len(args[0]) >= 1:
             try:
                 return segstr.replace(eng_, base, args[0], args[1])
             except Unsupported:
@@ -150,7 +150,10 @@ def str_method(eng, base, attr, node):
             # strip a set of characters from one end of a string whose length the path fixes: decide character by character
             n = None if eng_.pure else eng_.fixed_length(base)
             if n is None:
-                raise Unsupported('str.%s(chars) on a symbolic string of unknown length' % attr)
+                if eng_.pure:
+                    raise Unsupported('str.%s(chars) on a symbolic string of unknown length' % attr)
+                from . import segstr
+                return segstr.strip_chars(eng_, base, args[0], attr == 'lstrip')
             idxs = range(n) if attr == 'lstrip' else range(n - 1, -1, -1)
             keep = 0
             for cnt, i in enumerate(idxs):
